@@ -95,5 +95,11 @@ func ArchiveLicenses(licenses []string, w io.Writer) error {
 		}
 	}
 
-	return tw.Close()
+	if err := tw.Close(); err != nil {
+		return err
+	}
+	// Most of the archive is only written when the compressor is closed, so a
+	// failure of the underlying writer shows up here. (The deferred Close
+	// after this one does nothing.)
+	return gw.Close()
 }
